@@ -30,7 +30,8 @@ ANSWER_LAYER = re.compile(r"(chalk-solve/src/infer/|chalk-solve/src/infer\.rs|ch
 # ---------------------------------------------------------------------------------------------
 
 BASE_ITEMS = ["struct S0 {}", "struct S1<T> {}", "struct S2<T, U> {}", "struct S3<T, U, V> {}", "struct R<'a, T> {}", "struct C<const N> {}", "struct I32 {}",
-              "trait Tr0 {}", "trait Tr1<T> {}", "trait TrL<'a> {}", "trait TrC<const N> {}", "trait Id {}", "trait Triv {}", "impl Triv for S0 {}"]
+              "trait Tr0 {}", "trait Tr1<T> {}", "trait TrL<'a> {}", "trait TrC<const N> {}", "trait Id {}", "trait Triv {}", "impl Triv for S0 {}",
+              "struct Foo {}", "trait TrA { type Assoc; }"]
 # (impl text, atom patterns that the impl can satisfy; {T0} {T1} types, {L0} {L1} lifetimes, {C0} {C1} consts)
 IMPLS = [
     ("impl Tr0 for S0 {}", ["{T0}: Tr0", "S0: Tr0"]),
@@ -53,6 +54,9 @@ IMPLS = [
     ("impl<const N> Tr0 for C<N> {}", ["C<{C0}>: Tr0", "{T0}: Tr0"]),
     ("impl<const N> Tr1<C<N>> for C<N> {}", ["C<{C0}>: Tr1<{T0}>", "C<{C0}>: Tr1<C<{C1}>>", "{T0}: Tr1<C<{C0}>>"]),
     ("impl<'a, T> Tr1<T> for R<'a, T> {}", ["R<{L0}, {T0}>: Tr1<{T1}>", "{T0}: Tr1<{T1}>"]),
+    ("impl TrA for S0 { type Assoc = I32; }", ["{T0}: TrA", "S0: TrA"]),
+    ("impl<T> TrA for S1<T> { type Assoc = S1<T>; }", ["S1<{T0}>: TrA", "{T0}: TrA"]),
+    ("impl TrA for I32 { type Assoc = S0; }", ["{T0}: TrA"]),
 ]
 
 # groups of impls whose answers agree on a generic sub-term (same constructor, same arguments mentioning an impl
@@ -123,6 +127,8 @@ class OwnGen:
         """An inner quantifier prefix that into_peeled_goal cannot peel (it sits inside a conjunction), so the query has
         fewer universes than the solver creates internally:  exists<T..> { G0, forall<U..> { exists<'a / V / const N> { T = C<..> } } }
         with the inner unknown in an invariant ADT parameter position (also through & and fn pointers)."""
+        if self.r.random() < 0.35:
+            return self.goal_nonpeel_assoc()
         t = self.fresh("T")
         outer = [("T", t)]
         if self.r.random() < 0.3:
@@ -146,6 +152,34 @@ class OwnGen:
         if len(outer) == 2 and self.r.random() < 0.5:
             body += ", %s = S1<%s>" % (outer[1][1], outer[0][1])
         return "exists<%s> { %s }" % (", ".join(v for _, v in outer), body)
+
+    def goal_nonpeel_assoc(self):
+        """Non-peelable forall around an equation whose right-hand side nests a projection that does not normalise to a
+        closed type: `exists<T[,S]> { G0, forall<U> { [if (Foo: TrA<Assoc = U>)] { T = C<<S | Foo | S0 as TrA>::Assoc> } } }`."""
+        t = self.fresh("T")
+        outer = [t]
+        x = self.r.random()
+        if x < 0.45:
+            sv = self.fresh("T")
+            outer.append(sv)
+            subj = sv
+        elif x < 0.85:
+            subj = "Foo"
+        else:
+            subj = self.r.choice(["S0", "I32", "S1<Foo>"])
+        u = self.fresh("T")
+        proj = "<%s as TrA>::Assoc" % subj
+        filler = self.r.choice(["S0", "I32", u if self.r.random() < 0.2 else "S0"])
+        val = self.r.choice(["S1<%s>" % proj, "S2<%s, %s>" % (proj, filler), "S2<%s, %s>" % (filler, proj), "R<'static, %s>" % proj, "&'static %s" % proj,
+                             "S1<S1<%s>>" % proj, "S3<%s, S0, %s>" % (proj, proj)])
+        eq = "%s = %s" % (t, val) if self.r.random() < 0.6 else "%s = %s" % (val, t)
+        if subj == "Foo" and self.r.random() < 0.6 or (subj != "Foo" and self.r.random() < 0.2):
+            hyp_subj = subj if subj == "Foo" or self.r.random() < 0.5 else "Foo"
+            eq = "if (%s: TrA<Assoc = %s>) { %s }" % (hyp_subj, u, eq)
+        inner = "forall<%s> { %s }" % (u, eq)
+        g0 = self.r.choice(["S0: Triv", "S0: Triv", "S0 = S0"])
+        body = "%s, %s" % (g0, inner) if self.r.random() < 0.6 else "%s, %s" % (inner, g0)
+        return "exists<%s> { %s }" % (", ".join(outer), body)
 
     def goal_mixed(self):
         """unknowns in different universes tied by one atom: exists<outer> { forall<..> { exists<inner> { atom(inner, outer) } } }"""
@@ -379,7 +413,7 @@ def run(ctx):
     ctx.cov["wf_violations_by_family"] = vfam
     ctx.cov["answer_layer_panics_by_family"] = pfam
     ctx.cov["rule"] = ("programs x goals: (a) own generator: structs with type / lifetime / const parameters, traits with type / lifetime / const parameters, 3-9 impls of a pool of 20; goals = 1-4 nested forall/exists blocks "
-                       "binding types, lifetimes and consts, 1-3 atoms (Implemented / equality), optional hypothesis or inner quantifier; (b) vlib.proggen programs with existential goals; (c) goals whose inner forall/exists prefix cannot be peeled (it sits in a conjunction: `exists<T> { G0, forall<U> { exists<'a | V | const N> { T = C<..> } } }`, invariant ADT positions, &, fn pointers), so that the query's universe count is smaller than the universes the solver creates; (d) the DESIGN section 5 witnesses. "
+                       "binding types, lifetimes and consts, 1-3 atoms (Implemented / equality), optional hypothesis or inner quantifier; (b) vlib.proggen programs with existential goals; (c) goals whose inner forall/exists prefix cannot be peeled (it sits in a conjunction: `exists<T> { G0, forall<U> { exists<'a | V | const N> { T = C<..> } } }`, invariant ADT positions, &, fn pointers; and equations with a nested projection `T = C<<S | Foo as TrA>::Assoc>` with and without a hypothesis `Foo: TrA<Assoc = U>`), so that the query's universe count is smaller than the universes the solver creates; (d) the DESIGN section 5 witnesses. "
                        "Each goal is peeled+canonicalized by the real into_peeled_goal and solved by SLG solve, recursive solve and SLG solve_multiple (<= %d answers), each in a forked child with a %d s CPU limit. "
                        "Every Unique / Definite / Suggested / enumerated answer is counted as one evaluation; non-trivial = the query has at least one unknown and at least one answer came back." % (k_multi, cpu))
     if not ok:
